@@ -1267,6 +1267,7 @@ package profile
 //@     invariant locsaddr: forall a uint64 :: has(locs, a) && locs[a] != nil ==> locs[a].Address == a
 //@     step one_sample: len(p.Sample) != atiter(1, len(p.Sample)) ==> len(p.Sample) == atiter(1, len(p.Sample)) + 1 && p.Sample[len(p.Sample) - 1] != nil && same_elems(p.Sample[len(p.Sample) - 1].Value, value) && len(p.Sample[len(p.Sample) - 1].Location) == len(addrs)
 //@     step blocksize: len(p.Sample) != atiter(1, len(p.Sample)) ==> has(p.Sample[len(p.Sample) - 1].NumLabel, "bytes") && len(p.Sample[len(p.Sample) - 1].NumLabel["bytes"]) == 1 && p.Sample[len(p.Sample) - 1].NumLabel["bytes"][0] == blocksize
+//@     mustcall isMemoryMapSentinel sentinel_tested: $arg0 == line when !callres("isSpaceOrComment", 0)
 //@   loop 2
 //@     invariant p != nil && locs != nil && 0 <= $i && $i <= len(addrs) && len(sloc) == $i
 //@     invariant locsaddr: forall a uint64 :: has(locs, a) && locs[a] != nil ==> locs[a].Address == a
